@@ -8,7 +8,8 @@ ProdA == {Art(PA, "h1")}
 \* seconds relative to the verification time.  TLC's integers are 32-bit: the values beyond +-2.0e9 are
 \* names of calendar extremes which the concretisation spells out (year 1, 1000, 1500, 1699, 293 and 292
 \* years before; 292 and 293 years after, year 9999) - a strictly monotone map, so `<` means the same.
-Offsets == {-2100000000, -2090000000, -2080000000, -2070000000, -2060000000, -2050000000,
+\* -2020000000: the latest 30 December (noon) before the verification time that lies in ISO week 1 of the next year.
+Offsets == {-2100000000, -2090000000, -2080000000, -2070000000, -2060000000, -2050000000, -2020000000,
             -2000000000, -86400, -3600, -61, -1, 0, 1, 61, 3600, 86400, 2000000000,
             2050000000, 2060000000, 2100000000}
 Fmts == {"Z", "+00:00", "-00:00", "+02:00", "-07:30", "+14:00", "Z.25", "Z.999999999", "+05:45.5", "lower"}
